@@ -25,9 +25,10 @@ func (pr *previewReader) RenderPreview(r io.Reader, h meta.PreviewHeader) error 
 	offset := uint32(0)
 	maxSize := uint32(2048)
 	for {
-		maxOffset := offset + maxSize
-		if h.Size < maxOffset {
-			maxOffset = h.Size
+		// offset <= h.Size: compare the remaining length, offset + maxSize can wrap around for sizes close to 2^32
+		maxOffset := h.Size
+		if h.Size-offset > maxSize {
+			maxOffset = offset + maxSize
 		}
 
 		readLength, err := r.Read(img[offset:maxOffset])
